@@ -149,6 +149,14 @@ func Run(r *ev.Run) {
 			// (maximum_name_length is derived from the name: whatever the spec's field holds - e.g. a stale value from a parsed config - must not matter)
 			spec := ech.ConfigSpec{Version: 0xfe0d, ID: uint8(id), KEM: 0x20, PublicKey: key, CipherSuites: suites, PublicName: []byte(name), MaximumNameLength: uint8([]int{0, 5, 255, nl}[i%4])}
 			got, err := spec.Bytes()
+			if kl == 0 {
+				// public_key<1..2^16-1>: there is no well-formed config with an empty key - nothing may be produced
+				if err == nil {
+					r.Violation("malformed-config-produced:empty-public-key", fmt.Sprintf("ConfigSpec.Bytes returned %x without error for a spec with an empty public key: not a §4 structure (public_key<1..2^16-1>); crypto/tls finds no valid config in it", got), c)
+				}
+				r.Eval(fmt.Sprintf("emptykey:%d", i), "refused")
+				return
+			}
 			if err != nil {
 				r.Violation(fmt.Sprintf("encode-err:name%d:key%d", nl, kl), "ConfigSpec.Bytes failed on valid input: "+err.Error(), c)
 				return
@@ -182,6 +190,24 @@ func Run(r *ev.Run) {
 		})
 	})
 
+	// specs from which no well-formed config can be made: no cipher suite (cipher_suites<4..2^16-4>), a version other than 0xfe0d
+	// (which this package's own parser, and crypto/tls, do not take for an ECHConfig of this draft)
+	for _, bad := range []struct {
+		key  string
+		spec ech.ConfigSpec
+	}{
+		{"no-cipher-suites", ech.ConfigSpec{Version: 0xfe0d, ID: 9, KEM: 0x20, PublicKey: pub, PublicName: []byte("a.example")}},
+		{"empty-cipher-suites", ech.ConfigSpec{Version: 0xfe0d, ID: 9, KEM: 0x20, PublicKey: pub, CipherSuites: []ech.CipherSuite{}, PublicName: []byte("a.example")}},
+		{"version-0", ech.ConfigSpec{ID: 9, KEM: 0x20, PublicKey: pub, CipherSuites: sl[0], PublicName: []byte("a.example")}},
+		{"version-fe0c", ech.ConfigSpec{Version: 0xfe0c, ID: 9, KEM: 0x20, PublicKey: pub, CipherSuites: sl[0], PublicName: []byte("a.example")}},
+	} {
+		got, err := bad.spec.Bytes()
+		if err == nil {
+			_, perr := ech.Config(got).Spec()
+			r.Violation("malformed-config-produced:"+bad.key, fmt.Sprintf("ConfigSpec.Bytes returned %x without error for %s; parsing it back: %v", got, bad.key, perr), bad.key)
+		}
+		r.Eval("bad-spec:"+bad.key, "refused")
+	}
 	// non-DNS byte strings as names (codec level only) and invalid lengths
 	for _, nl := range []int{1, 255} {
 		name := string(tlsref.DetBytes("rawname", nl))
